@@ -224,14 +224,20 @@ Instants are carried as `Option Nat`: `none` is the "forever" sentinel, `some t`
 (or milliseconds) since the epoch.  The calendar conversion itself (`datetime` ↔ epoch) is
 CPython's and is not modelled. -/
 
+/-- The last whole second `datetime` can carry: 9999-12-31T23:59:59Z. -/
+def maxEpochSeconds : Nat := 253402300799
+
 /-- `parse_timestamp(name, milliseconds, item_size)`: all-ones of the field's width is `None`;
-otherwise the seconds are masked to 32 bits (the code applies `0xffffffff &`). Result in the unit
-of the field (ms if `milliseconds`). -/
+otherwise the field value is taken as it is (repaired: the seconds used to be masked with
+`0xffffffff` whatever the width).  With `milliseconds` the value splits into `v / 1000` seconds and
+`v % 1000` milliseconds.  An instant whose seconds exceed `maxEpochSeconds` is later than
+9999-12-31T23:59:59.999Z, which `datetime` cannot carry: `InvalidValue`.  Result in the unit of the
+field (ms if `milliseconds`). -/
 def parseTimestamp (bo : ByteOrder) (ms : Bool) (k : Nat) (rest : Bytes) : Except PErr ((Option Nat) × Nat) := do
   let (v, n) ← parseNum bo k rest
   if v == 256 ^ k - 1 then pure (none, n)
-  else if ms then pure (some ((v / 1000) % 2 ^ 32 * 1000 + v % 1000), n)
-  else pure (some (v % 2 ^ 32), n)
+  else if (if ms then v / 1000 else v) > maxEpochSeconds then throw .invalidValue
+  else pure (some v, n)
 
 /-- `compose_timestamp(value, milliseconds, item_size)` after the repair: sentinel of the field's own
 width; the epoch value is computed from the UTC calendar fields (zone independent). -/
